@@ -12,14 +12,14 @@ ASSUME = ["the layouts only vary gaps that the grammar permits (leading/trailing
 
 
 def run(ctx):
-    ctx.build()
+    ctx.build(need_cli=True)
     quick = ctx.tier == "quick"
     rng = random.Random(ctx.seed)
     single = variants.gen(ctx, "layout1")
     full = variants.gen(ctx, "layoutN", workers=8) if not quick else None
     R = flow.Runner(ctx)
     nb = 0
-    keys = ["ind", "sep", "comma", "brk", "opsp", "trail", "cmt", "own", "blank", "eol", "final"]
+    keys = ["ind", "sep", "comma", "brk", "opsp", "trail", "cmt", "cmtsp", "own", "blank", "eol", "final"]
     dom = {k: sorted({c[k] for c in single}, key=str) for k in keys}
     for bits in (16, 32):
         cases = progs.gen(ctx, 15 if quick else 120, length=14, nl=3, bits=bits)
@@ -48,6 +48,31 @@ def run(ctx):
                 vid = R.add(base, src=render.program(base, layout=mixed))
                 R.rel("eq", ["C12"], a=bid, b=vid)
     R.run()
+    # the same through the real command (cmd/gosk reads and decodes the file itself): line-ending conventions x leading comment
+    import hashlib, os
+    ncli = 0
+    d = os.path.join(ctx.scratch, "cli12")
+    os.makedirs(d, exist_ok=True)
+    bases = [c for c in R.cases if c["src"] == render.program(c["stmts"])][: (6 if quick else 40)]
+    for bi, b in enumerate(bases):
+        for eol in ("\n", "\r\n", "\r"):
+            for top in (0, 1):
+                for final in (1, 0):
+                    lay = {"eol": eol, "final": final}
+                    src = render.program(b["stmts"], layout=lay)
+                    if top:
+                        src = "; hello-os" + eol + "; second comment line" + eol + src
+                    sp = os.path.join(d, "in_%d.nas" % ncli)
+                    dp = os.path.join(d, "out_%d.bin" % ncli)
+                    open(sp, "wb").write(src.encode())
+                    r = ctx.run_cli([sp, dp])
+                    data = open(dp, "rb").read() if os.path.isfile(dp) else b""
+                    cid = R.add(b["stmts"], src=src, notrace=True)
+                    R.results[cid] = [{"e": "end", "id": cid, "status": "ok" if r["rc"] == 0 else "exit", "exit": r["rc"] if r["rc"] >= 0 else 128 - r["rc"],
+                                       "panic": "", "perr": "", "stdout": "", "outlen": len(data), "sha": hashlib.sha256(data).hexdigest()[:16],
+                                       "diag": {"error": 0, "Error": 0, "warn": 0, "Warn": 0}, "nstmt": 0, "loc": 0, "fmt": ""}]
+                    R.rel("eq", ["C12"], a=b["id"], b=cid)
+                    ncli += 1
     return relcheck.finish(ctx, "C12", R, None,
                            "seeded random programs (incl. strings containing ',', ';', '#', blanks) x layouts enumerated by TLC (Gen_Variants.tla: all single-gap variations of the canonical layout%s) + seeded per-statement mixed layouts; relation: same outcome class and identical output" % (
                                "" if quick else "; full product of 11 gap dimensions sampled by seed"), ASSUME, extra={"base_programs": nb})
